@@ -404,8 +404,10 @@ def run_harness(h, src, logdir):
                 and not re.search(r"CBMC failed with status|ut of memory", out):
             # pass 2 only for failing harnesses: obtain the concrete counterexample as a unit test
             cmd2 = kani_cmd(h, slot.dir, playback=True)
-            # the trace of a failing run is large (kani-driver needed 23 GB to parse one for a 9 GB harness): generous cap
-            rc2, out2, to2, wall2 = run_cmd(cmd2, src, h["timeout"], min(48, max(5 * h["mem_gb"], 24, h.get("playback_mem_gb", 0))), logfile=logfile + ".playback")
+            # without --slice-formula the instance is large (27 M variables / 24 GB for a 4.5 GB harness; kani-driver 23 GB to parse a trace):
+            # the playback pass may use most of the machine (62 GB, no swap)
+            # ... and slow (--trace, no formula slicing: measured 10-12x the time of pass 1): its own, longer time limit
+            rc2, out2, to2, wall2 = run_cmd(cmd2, src, max(3600, 4 * h["timeout"]), max(44, h.get("playback_mem_gb", 0)), logfile=logfile + ".playback")
             wall += wall2
             pb = parse_kani_output(out2)["playback"] if not to2 else []
         else:
